@@ -223,3 +223,97 @@ def run(rep: Report, prog: Program, tier: str) -> None:
     none_arith_rule(rep, prog, PROP, "C05-NONE")
     serial_subrule(rep, prog, tier, PROP, "C05-SERIAL", ["rtcsctptransport", "rtcrtpreceiver", "jitterbuffer", "rtp"], 30,
                    "serial-number discipline (C17 rule set) on the receive path: a raw difference / comparison of wrapping counters yields negative or huge values that end in struct.pack or an index")
+
+    # (j) codec payloads: the decoders run in a worker thread fed through a queue; whatever FFmpeg thinks of a payload must not end that thread, and the
+    # flush request (an empty packet) must never be produced from received data
+    decode_rule(rep, prog)
+
+
+def decode_rule(rep: Report, prog: Program) -> None:
+    import ast
+    from types import SimpleNamespace as NS
+
+    from engine.index import Unknown, unparse, walk_no_nested
+    from engine.peval import Raised
+    from engine.report import mk_finding
+
+    from .objhook import make_hook
+    RULE = "C05-DECODE"
+    rep.rule(RULE, "every decoder of the registry survives a payload FFmpeg rejects; frames without data never reach a decoder", min_instances=6)
+    base = prog.cls("codecs.base.Decoder")
+    decoders = [ci for ci in prog.classes.values() if ci is not base and any(c is base for c in prog.mro(ci)) and "decode" in ci.methods]
+    if len(decoders) < 5:
+        raise AnalysisError(f"{RULE}: only {len(decoders)} decoder classes found")
+    for ci in sorted(decoders, key=lambda c: c.qualname):
+        fi = ci.methods["decode"]
+        parents = {}
+        for p_ in ast.walk(fi.node):
+            for ch in ast.iter_child_nodes(p_):
+                parents[id(ch)] = p_
+        ext_calls = [n for n in walk_no_nested(fi.node) if isinstance(n, ast.Call) and isinstance(n.func, ast.Attribute) and n.func.attr in ("decode", "send", "receive", "parse")
+                     and unparse(n.func.value).startswith("self.codec")]
+        if not ext_calls:
+            rep.ok(RULE, f"{ci.qualname}.decode: no FFmpeg call", nontrivial=False)
+            continue
+        for n in ext_calls:
+            cur = n
+            guarded = False
+            while id(cur) in parents:
+                par = parents[id(cur)]
+                if isinstance(par, ast.Try) and any(cur is b for b in par.body):
+                    for hd in par.handlers:
+                        names = [unparse(x).split(".")[-1] for x in (hd.type.elts if isinstance(hd.type, ast.Tuple) else [hd.type])] if hd.type is not None else ["*"]
+                        if any(x in ("*", "FFmpegError", "Exception", "BaseException") for x in names) and not any(isinstance(b, ast.Raise) for b in hd.body):
+                            guarded = True
+                cur = par
+            if guarded:
+                rep.ok(RULE, f"{ci.qualname}.decode: `{unparse(n)[:50]}` inside a handler for FFmpegError", sample="log and return no frames")
+            else:
+                rep.fail(mk_finding(prog, "C05", RULE, fi, n, f"`{unparse(n)[:60]}` can raise av.FFmpegError (InvalidDataError for a payload that is not a valid frame, EOFError after a flush) and "
+                                    f"{ci.name}.decode does not handle it, unlike its sibling decoders: the exception ends the decoder thread and nothing is decoded for the rest of the session",
+                                    construct=f"{ci.name}.decode lets FFmpegError escape"))
+    # the worker calls decode() bare: it relies on the above
+    h = prog.func("rtcrtpreceiver.RTCRtpReceiver._handle_rtp_packet")
+    queued = []
+
+    def extra(call, ev):
+        name = unparse(call.func)
+        if name.endswith("__jitter_buffer.add"):
+            return (False, ev.env["self"].next_frame)
+        if name.endswith("__decoder_queue.put"):
+            queued.append(ev.ev(call.args[0]))
+            return None
+        if name.endswith("__log_debug") or name.endswith("_send_rtcp_pli") or name.endswith("_send_rtcp_nack"):
+            return None
+        if name == "depayload":
+            return ev.ev(call.args[1])
+        if name in ("clock.current_datetime", "current_datetime"):
+            return 0
+        if name == "time.time":
+            return 100.0
+        if name.endswith("__timestamp_mapper.map"):
+            return ev.ev(call.args[0])
+        return NotImplemented
+    oh = make_hook(prog, extra)
+    from engine.peval import Evaluator
+    ev0 = Evaluator(prog, h.module, None, {}, oh)
+    for label, data, want in (("a frame with data", b"\x01\x02", 1), ("a frame without data (only empty payloads)", b"", 0)):
+        del queued[:]
+        me = NS(__cls__=h.cls, _enabled=True, next_frame=NS(data=data, timestamp=1234))
+        for k, v in {"__remote_bitrate_estimator": None, "__rtcp_ssrc": 7, "__active_ssrc": {}, "__remote_streams": {}, "__rtx_ssrc": {}, "__decoder_thread": NS(), "__jitter_buffer": NS(),
+                     "__decoder_queue": NS(), "__timestamp_mapper": NS(), "__kind": "audio", "__nack_generator": None,
+                     "__codecs": {0: NS(name="PCMU", mimeType="audio/PCMU", clockRate=8000, parameters={})}}.items():
+            setattr(me, k, v)
+        pkt = oh.instantiate(prog.cls("rtp.RtpPacket"), [], dict(payload_type=0, sequence_number=5, timestamp=800, ssrc=9, payload=data), ev0)
+        try:
+            oh.run_method(h, me, [pkt, 100], {})
+        except Raised as ex:
+            rep.fail(mk_finding(prog, "C05", RULE, h, getattr(ex, "node", None), f"[{label}] _handle_rtp_packet raises {ex.name}", construct=f"decode feed raises {ex.name}"))
+            continue
+        except Unknown as ex:
+            raise AnalysisError(f"{RULE} cannot evaluate _handle_rtp_packet [{label}]: {ex}")
+        if len(queued) == want:
+            rep.ok(RULE, f"_handle_rtp_packet: {label} -> {'queued for the decoder' if want else 'not queued'}")
+        else:
+            rep.fail(mk_finding(prog, "C05", RULE, h, h.node, f"[{label}] {len(queued)} item(s) queued for the decoder, expected {want}: av.Packet(b'') is FFmpeg's flush request, after it every "
+                                "decode() fails and the decoder is dead for the rest of the session", construct="empty frame handed to the decoder" if not want else "frame not handed to the decoder"))
